@@ -5,7 +5,7 @@ from simple import Simple
 
 S = Simple("C07", "incr", "incr.cpp",
            lambda tier: hb.five_backends(),
-           lambda tier: [("c07_incremental", 200000 if tier == "quick" else 2000000, 100)],
+           lambda tier: [("c07_incremental", 200000 if tier == "quick" else 10000000, 100)],
            "Case = (interface in hash/hasha/xof/xofa/prf/kmac/kmaca/kdf/kdfa/hmac/hmaca/hkdf/hkdfa/incremental AEAD enc+dec x3, inputs, "
            "generated partition of the input and of the output into chunks (0, <rate, =rate, >rate, mixed), optional copy taken before a generated "
            "absorb or squeeze chunk (hash/XOF families; both objects continue), optional junk history followed by re-initialisation, per-chunk "
